@@ -124,7 +124,7 @@ impl VFile {
     // for ever on a full pipe (no reader gone, no EPIPE) as soon as the text is larger than the pipe (C02: the pipeline terminates)
     pub fn write_here_string(&mut self, b: &[u8], Ghost(word): Ghost<Seq<char>>, Ghost(rd): Ghost<int>, Tracked(k): Tracked<&mut Kernel>) -> (r: Result<(), VxIoErr>)
         requires b@ == spec_bytes_of(word.push('\n')), //@L C04.rsp.the_here_string_is_the_word_followed_by_one_newline
-            !old(k).fds.contains_key(rd) //@L C02.rsp.the_shell_has_closed_its_read_end_of_the_here_string_pipe_before_it_writes
+            !old(k).fds.contains_key(rd) //@L C02+C05.rsp.the_shell_has_closed_its_read_end_of_the_here_string_pipe_before_it_writes
         ensures final(self).fd == old(self).fd, *final(k) == *old(k)
     { unimplemented!() }
 }
